@@ -1,7 +1,66 @@
-(** C01 - printed built-in values evaluate back (statements; see Proofs/). *)
-From PP Require Import Doc Normalize Layout Render PyStr PyVal Printers Pformat.
+(** C01 - printed built-in values evaluate back to an equal value of the same
+    types.  Statements only; proofs are in Proofs/. *)
+From Coq Require Import Lia.
+From PP Require Import Doc Normalize Layout Render PyStr PyVal Printers Pformat PyExpr PyEval
+     PrettyToks1 PrettyToks3 EvalRT NormFits.
 
-(** placeholder non-vacuity example; the theorems are added below as they are proved *)
+(** (1) What is handed to the layout engine.  For every built-in value and
+    every indent / depth / max_seq_len / sort setting, the document built by
+    python_to_sdocs denotes - in EVERY layout, i.e. whichever branch of every
+    flat_choice is taken and however the string printer splits its literals
+    (the [DT] projection; width and ribbon only select among those layouts) -
+    exactly the token sequence of the expression [expr_of] prescribes, which
+    mentions neither width, ribbon, indent nor multiline strategy. *)
+Theorem C01_denotes :
+  forall (is_space_u is_linebreak : N -> bool) (v : pyval) (indent : Z) (depth : option Z)
+         (maxlen : Z) (sort : bool),
+    builtin v ->
+    DT (top_doc is_space_u is_linebreak v indent depth maxlen sort)
+       (etoks (expr_of (mkE depth maxlen sort) v false)).
+Proof. intros. apply top_doc_DT. now apply builtin_wf. Qed.
+Print Assumptions C01_denotes.
+
+(** (2) That expression evaluates - with no name in scope but the built-ins -
+    to the value itself: the same constructor (= exact type) at every
+    position, float literals as their repr (so 0.0 / -0.0 differ), inf / -inf /
+    nan through float('...'), sets through set literals or set(), one-element
+    tuples with their comma; dict entries in insertion order, or in the order
+    sorted(keys, key=_AlwaysSortable) produced when sorting is requested
+    ([canon]).  Holds whenever depth is None and no container is longer than
+    max_seq_len. *)
+Theorem C01_roundtrip :
+  forall (n : Z) (sort : bool) (v : pyval),
+    (1 <= n)%Z -> builtin v -> fits n v ->
+    eval (fun _ => None) (expr_of (mkE None n sort) v false) = Some (canon sort v).
+Proof.
+  intros n sort v Hn Hb Hf.
+  rewrite (eval_expr_of (fun _ => None) eq_refl eq_refl eq_refl n sort Hn v false (builtin_evaluable _ v Hb)).
+  now rewrite norm_fits.
+Qed.
+Print Assumptions C01_roundtrip.
+
+(** the general statement behind (2): any evaluable value (subclass instances,
+    objects printed through pretty_call, paths, comments attached anywhere),
+    any max_seq_len >= 1 *)
+Theorem C01_roundtrip_general :
+  forall (env : str -> option target),
+    env n_float = None -> env n_frozenset = None -> env n_set = None ->
+    forall (n : Z) (sort : bool), (1 <= n)%Z ->
+    forall (v : pyval) (tr : bool), evaluable env v ->
+      eval env (expr_of (mkE None n sort) v tr) = Some (norm n sort v).
+Proof. exact eval_expr_of. Qed.
+Print Assumptions C01_roundtrip_general.
+
+(** Non-vacuity: a concrete value meets the hypotheses; the model prints it
+    and the expression evaluates back. *)
+Definition c01_example : pyval :=
+  VList [VInt (-1); VTuple [VNone]; VDict [(VStr [97]%N, VBool true); (VInt 2, VFloat [45; 48; 46; 48]%N)] [1%nat; 0%nat];
+         VSet []; VFrozenset [VNan]; VBytes []].
+Example C01_example_hyps : builtin c01_example /\ fits 1000 c01_example.
+Proof. cbn. repeat split; try lia; try apply Z.leb_le; reflexivity. Qed.
+Example C01_example_eval :
+  eval (fun _ => None) (expr_of (mkE None 1000 true) c01_example false) = Some (canon true c01_example).
+Proof. vm_compute. reflexivity. Qed.
 Example C01_model_runs :
   pformat_model (fun _ => true) (fun c => N.eqb c 32) (fun _ => true) (fun c => N.eqb c 10)
     200 200 (VList [VInt 1; VTuple [VNone]; VDict [(VStr [97]%N, VBool true)] [0%nat]]) 4 79 71 None 1000 false
